@@ -41,9 +41,19 @@ What is proved about INTROSPECTED proxies and BYTES (added later):
 * `bytes_run_simulated`, `C11_bytes_any_delivery_order_partial` - a byte-level network over C04's code model of
   `dataReceived`; every byte-level run is matched by a message-level run; byte-level quiescence gives `Completed`.
 
+Extension 2026-09-30:
+* `bytes_quiescence_reachable`, `bytes_quiescence_reachable_in_class`, `C11_bytes_completion_always_reachable_partial` -
+  byte-level PROGRESS: the canonical draining schedule reaches byte-level quiescence from every reachable state; every
+  byte-level run can be extended to a quiescent one in which every call to an attached client is `Completed`;
+* `bytes_run_from_handshake_reduces`, `C11_bytes_from_handshake_partial` - runs that begin BEFORE the end of the
+  handshake (receivers in line mode, hand-off with message bytes in the same read: C04's `handoff` composed);
+* `getRemoteObject_introspects_iff_unknown_name`, `getRemoteObject_built_lists_every_requested`,
+  `getRemoteObject_built_agrees` - the `interfaces=` argument of `getRemoteObject` (Net/GetProxy.lean).
+
 What is NOT a theorem here (PARTIAL with respect to the statement's wording; see notes/C11.md):
-* the codec enters the byte-level theorem through the stated laws `WireCodec.Laws` (C03's `marshal_wellformed`,
-  `parse_marshal` cited, not instantiated: values are abstract here); the handshake before binary mode is outside;
+* the codec enters the byte-level theorems through the stated laws `WireCodec.Laws` (C03's `marshal_wellformed`,
+  `parse_marshal` cited, not instantiated: values are abstract here, and the bus's re-marshalled frames have no
+  well-formedness theorem yet); the first read of a link must take the whole remaining handshake;
 * the stale-cache case of introspection (name known, no replacement) is excluded by hypothesis;
 -/
 namespace Txdbus.Net
@@ -440,19 +450,26 @@ wire, nothing buffered by any receiver and no unfired Deferred: a message-level 
 state has the same client logs, is quiescent, and therefore (`C11_end_to_end`) has every call issued to an attached
 client `Completed`: exactly one completion, exactly one answer, the invocation exactly once iff accepted.
 
-Missing for the unqualified name:
-(1) the instance of `WireCodec.Laws` for txdbus's codec - C03 proves `marshal_wellformed` and `parse_marshal` for its
-    concrete message model with concrete bodies (hypotheses on the values: C01's `RepFields`, fuel, `SigNoNul`, size
-    limits), which this model keeps abstract; the bridge "C03's well-formedness implies C04's `Spec.WellFormed`" is not
-    a named theorem of either property; the only instances here are the example codecs below;
-(2) the handshake before binary mode (C04 `handoff`, C06/C07), `Hello`, messages to the bus itself: `BNet.init` starts
-    after them;
-(3) byte-level PROGRESS: `hq` (wires and receiver buffers empty) is assumed.  Proved: no receiver ever holds a complete
-    frame (`Sim.no_complete_frame_buffered`), and a read of everything queued empties the link (`Sim.read_all_empties_up`);
-    not proved: from every byte-level state some schedule of reads and firings reaches `BNet.Quiescent` (the byte-level
-    `quiescence_reachable`);
+Missing for the unqualified name (state of 2026-09-30; items (2) and (3) of the earlier list are theorems now):
+(1) the instance of `WireCodec.Laws` for txdbus's codec.  The bridge "C03 constructed message => C04 `Spec.WellFormed`"
+    exists since 2026-09-30 (C04 `wellFormed_of_constructed`), but it covers `construct` (the four constructors) only:
+    every message that REACHES a client was re-marshalled by the bus with the sender stamped (`Msg.remarshal`), for
+    which C03's `Proofs/Msg/Forward.lean` (in progress on 2026-09-30) has `remarshal_ok` (the bytes are the
+    specification encoding) and `remarshal_parse_gen` (they parse back) - the step from there to `Spec.WellFormed` (C04
+    `wellFormed_of_layout`) is not made; and `Msg V` has to be mapped onto C03's constructor arguments (client index <-> bus name,
+    the text of `Reply.err` <-> a body value of the abstract type `V`).  The only instances here are the example codecs
+    below and, in the driver, the TABLE codec of the stream `bytes-net` (the bytes the real peers wrote);
+(2) [closed up to two restrictions by `bytes_run_from_handshake_reduces` / `C11_bytes_from_handshake_partial`: runs
+    from `BNet.initH`, every receiver still in line mode, the remaining authentication lines in front of each wire]
+    - the FIRST read on a link must take the whole remaining handshake (`HSRun`; it may take message bytes with it: the
+    hand-off); a handshake consumed over several reads of the SAME state is C04 `line_partition_independent`, not
+    composed here; - `Hello`, `NameAcquired` and every message to the bus itself (C13) are not in the model; who writes
+    the authentication lines and when is C06/C07's;
+(3) [closed by `bytes_quiescence_reachable` / `C11_bytes_completion_always_reachable_partial`: byte-level PROGRESS for
+    runs from `BNet.init`; not transferred to runs from `BNet.initH`];
 (4) `hok` constrains what the run serialises (calls, replies, error texts, the bus's stamped copies) to the codec's
-    domain; nothing relates that domain to `World.encErr = none`, the model's own "this body encodes";
+    domain; nothing relates that domain to `World.encErr = none`, the model's own "this body encodes"; the progress
+    theorem needs the domain to contain what the draining schedule serialises as well;
 (5) one `enc : Msg -> bytes` for every writer: the real bus forwards the sender's BODY bytes verbatim in the sender's
     byte order (fixes/C11-01), a function of the raw message, and `Msg` has no byte order - no instance can describe a
     run with a big-endian sender (the harness does run such senders, at message level);
